@@ -26,6 +26,8 @@ structure Clr (s : St) (R : List GNode) (D : RefId × Node → Prop) (s' : St) :
   ge : s'.ge = s.ge.filter (fun e => !R.contains e.1 && !R.contains e.2)
   rgSub : ∀ e ∈ s'.rg, e ∈ s.rg
   rgKeep : ∀ e ∈ s.rg, GNode.elem e.2 ∉ R → ¬ D e → e ∈ s'.rg
+  /-- the edges into removed elements are gone -/
+  rgOut : ∀ e ∈ s'.rg, GNode.elem e.2 ∉ R
   stack : s'.stack = s.stack
   idx : s'.idx = s.idx
   refstack : s'.refstack = s.refstack
@@ -35,7 +37,7 @@ theorem filter_all {α} (l : List α) : l = l.filter (fun _ => true) :=
   (List.filter_eq_self.mpr (fun _ _ => rfl)).symm
 
 theorem Clr.refl (s : St) (D : RefId × Node → Prop) : Clr s [] D s := by
-  refine ⟨?_, ?_, ?_, ?_, fun _ h => h, fun _ h _ _ => h, rfl, rfl, rfl, ?_⟩
+  refine ⟨?_, ?_, ?_, ?_, fun _ h => h, fun _ h _ _ => h, (fun _ _ h => nomatch h), rfl, rfl, rfl, ?_⟩
   · simp only [keepB, List.contains_nil, Bool.not_false]; exact filter_all _
   · simp only [keepB, List.contains_nil, Bool.not_false]; exact filter_all _
   · simp only [List.contains_nil, Bool.not_false]; exact filter_all _
@@ -58,7 +60,7 @@ theorem Clr.edgeOK {s s' : St} {R : List GNode} {D : RefId × Node → Prop} (h 
 
 theorem Clr.trans {s s1 s2 : St} {R1 R2 : List GNode} {D : RefId × Node → Prop}
     (h1 : Clr s R1 D s1) (h2 : Clr s1 R2 D s2) : Clr s (R1 ++ R2) D s2 := by
-  refine ⟨?_, ?_, ?_, ?_, ?_, ?_, h2.stack.trans h1.stack, h2.idx.trans h1.idx,
+  refine ⟨?_, ?_, ?_, ?_, ?_, ?_, ?_, h2.stack.trans h1.stack, h2.idx.trans h1.idx,
     h2.refstack.trans h1.refstack, ?_⟩
   · rw [h2.data, h1.data, List.filter_filter]
     congr 1; funext e; simp [keepB, Bool.and_comm]
@@ -75,6 +77,11 @@ theorem Clr.trans {s s1 s2 : St} {R1 R2 : List GNode} {D : RefId × Node → Pro
   · intro e he hr hd
     simp only [List.mem_append, not_or] at hr
     exact h2.rgKeep e (h1.rgKeep e he hr.1 hd) hr.2 hd
+  · intro e he hr
+    simp only [List.mem_append] at hr
+    rcases hr with hr | hr
+    · exact h1.rgOut e (h2.rgSub e he) hr
+    · exact h2.rgOut e he hr
   · intro a b hab ha
     simp only [List.mem_append] at ha ⊢
     rcases ha with ha | ha
@@ -129,7 +136,7 @@ theorem clr_clearSet (s : St) (R : List GNode) (D : RefId × Node → Prop) (hc 
     intro m
     simp only [List.contains_eq_mem, decide_eq_decide]
     exact mem_elemsOf R m
-  refine ⟨?_, ?_, rfl, rfl, ?_, ?_, rfl, rfl, rfl, hc⟩
+  refine ⟨?_, ?_, rfl, rfl, ?_, ?_, ?_, rfl, rfl, rfl, hc⟩
   · simp only [St.clearSet, St.dropValues, St.rgRemoveReferred, St.removeNodes, keepB, hf]
   · simp only [St.clearSet, St.dropValues, St.rgRemoveReferred, St.removeNodes, keepB, hf]
   · intro e he
@@ -139,6 +146,9 @@ theorem clr_clearSet (s : St) (R : List GNode) (D : RefId × Node → Prop) (hc 
     simp only [St.clearSet, St.dropValues, St.rgRemoveReferred, St.removeNodes, List.mem_filter, hf]
     refine ⟨he, ?_⟩
     simpa using hr
+  · intro e he
+    simp only [St.clearSet, St.dropValues, St.rgRemoveReferred, St.removeNodes, List.mem_filter, hf] at he
+    simpa using he.2
 
 theorem closed_descs (s : St) (he : EdgeOK s) (a : GNode) (ha : a ∈ s.gn) :
     Closed s.ge (s.descsWith a) := by
@@ -302,7 +312,7 @@ theorem clr_clearAttrReferrers (s : St) (he : EdgeOK s) (r : RefId) :
   -- dropping the edges first
   have h0 : Clr s [] (dropOf s r) { s with rg := s.rg.filter (fun e => e.1 != r && !readers.contains e.2) } := by
     refine ⟨(Clr.refl s (dropOf s r)).data, (Clr.refl s (dropOf s r)).inputs, (Clr.refl s (dropOf s r)).gn,
-      (Clr.refl s (dropOf s r)).ge, ?_, ?_, rfl, rfl, rfl, ?_⟩
+      (Clr.refl s (dropOf s r)).ge, ?_, ?_, (fun _ _ h => nomatch h), rfl, rfl, rfl, ?_⟩
     · intro e h; exact (List.mem_filter.mp h).1
     · intro e h _ hd
       simp only [dropOf, not_or] at hd
